@@ -28,7 +28,8 @@ import pandas as pd
 from . import sim  # noqa: F401  (sys.path -> repo under test, logging / tqdm silenced)
 from .common import int_to_limbs
 
-KINDS = ("uni", "aave", "squeeth", "deribit", "gmx1", "gmx2")
+KINDS = ("uni", "aave", "squeeth", "deribit", "gmx1", "gmx2", "mix")
+MIX_BLOCK = 20      # NoLookahead!MixBlock: one bar symbol of kind "mix" = a block of 20 one-minute bars (no resampling)
 HOOKS = ("bb", "ob", "ab")
 D = Decimal
 UNI_RAW = ["netAmount0", "netAmount1", "closeTick", "openTick", "lowestTick", "highestTick", "inAmount0", "inAmount1",
@@ -40,7 +41,7 @@ def period_min(kind: str) -> int:
 
 
 def interval_of(kind: str, F: int) -> str:
-    return f"{F * period_min(kind)}min"
+    return "1min" if kind == "mix" else f"{F * period_min(kind)}min"
 
 
 def pattern(s: int, F: int):
@@ -305,6 +306,17 @@ def frames(kind: str, raw, tmp):
         df = c17.v1_frame({j: GMX1_ROWS[s - 1] for j, s in enumerate(raw)}, _tmpdir(tmp))
         fr = {"gmx": df, "prices": get_price_from_data(df)}
         return fr, {"gmx": df}
+    if kind == "mix":
+        from demeter.uniswap.helper import get_price_from_data
+        from .deribit_util import book_frame
+        pool = _uni_pool()
+        df = pool.frame(list(raw))
+        prices, _quote = get_price_from_data(df, pool.pool)
+        hours = list(range(0, n, 60))
+        books = [book_frame(DERIBIT_BOOKS[raw[h] - 1], {k: {**v, "exp": 10 ** 6} for k, v in DERIBIT_INFO.items()}) for h in hours]
+        data = pd.concat(books, keys=[sim.minute(h) for h in hours], names=["time", "instrument_name"])
+        fr = {"uni": df, "opt": data, "prices": prices}
+        return fr, {"uni": df[UNI_RAW], "opt": data}
     if kind == "gmx2":
         from demeter.gmx.helper2 import get_price_from_v2_data
         from .props import c17
@@ -333,8 +345,27 @@ class World:
         self.mem = {}
 
     def init_ops(self):
-        if self.kind == "deribit":
+        if self.kind in ("deribit", "mix"):
             self.markets["opt"].deposit(D(10))
+
+    # -- mix: the minutely pool and the hourly option market in one account -----------------------------------------
+    def _mix_open(self, s):
+        m = self.markets["uni"]
+        pr = m.market_status.data.price
+        m.add_liquidity(pr * D("0.9"), pr * D("1.1"), D(4000), D(2))        # part of the wallet only
+        self._deribit_open(s)
+
+    def _mix_adjust(self, s):
+        opt = self.markets["opt"]
+        # cash may move on every bar (deposit / withdraw are not gated by the hourly market); the amount depends on the bar's data
+        opt.deposit(D("0.1") + (D(s.prices["ETH"]) / D(100000)).quantize(D("0.0001")))
+        if opt.is_open:
+            self._deribit_adjust(s)
+        self._uni_adjust(s)
+
+    def _mix_close(self, s):
+        self._uni_close(s)
+        self.markets["opt"].withdraw(D("0.5"))
 
     def do(self, op, snapshot):
         try:
@@ -509,6 +540,19 @@ def actuator(kind: str, F: int, fr) -> World:
         act.set_price(fr["prices"], sim.USDC)
         act.broker.set_balance(eth, D(1000))
         mk["opt"] = m
+    elif kind == "mix":
+        from demeter.deribit import DeribitOptionMarket
+        from demeter.uniswap import UniLpMarket
+        pool = _uni_pool()
+        m = UniLpMarket(MarketInfo("uni"), pool.pool)
+        m.data = fr["uni"]
+        om = DeribitOptionMarket(MarketInfo("opt", MarketTypeEnum.deribit_option), DeribitOptionMarket.ETH, data=fr["opt"])
+        act.broker.add_market(m)
+        act.broker.add_market(om)
+        act.broker.set_balance(pool.t0, D(10000))
+        act.broker.set_balance(pool.t1, D(500))
+        act.set_price((fr["prices"], pool.pool.quote_token))
+        mk["uni"], mk["opt"] = m, om
     elif kind == "gmx1":
         from demeter.gmx import GmxMarket
         from .props import c17
@@ -539,7 +583,7 @@ def actuator(kind: str, F: int, fr) -> World:
 # ------------------------------------------------------------------------------------------------------------------
 # one run under the recorder
 # ------------------------------------------------------------------------------------------------------------------
-COMPONENTS = ("snap_bb", "snap_ob", "snap_ab", "notified", "account", "account_df", "actions")
+COMPONENTS = ("snap_bb", "snap_ob", "snap_ab", "notified", "account", "account_df", "actions", "account_live")
 
 
 def canon_snapshot(s):
@@ -548,7 +592,7 @@ def canon_snapshot(s):
             "market_status": [[canon(k), canon(v)] for k, v in s.market_status.items()]}
 
 
-def run_world(w: World, script: int, nbars: int, keep=False):
+def run_world(w: World, script: int, nbars: int, keep=False, group=1):
     """-> dict(obs=[per bar {component: digest}], err, outcomes, (canon if keep))."""
     from demeter import Strategy
     per = {}     # bar -> component -> canonical value
@@ -562,6 +606,9 @@ def run_world(w: World, script: int, nbars: int, keep=False):
 
         def _hook(self_, hook, snapshot):
             bar = snapshot.row_id
+            if hook == "bb" and bar > 0 and len(self_.account_status) >= bar:
+                # the account row of the previous bar as it is right after that bar (the history must not be rewritten later)
+                slot(bar - 1)["account_live"] = canon(self_.account_status[bar - 1])
             slot(bar)["snap_" + hook] = canon_snapshot(snapshot)
             for h, op in script_ops(script, bar, nbars):
                 if h == hook:
@@ -575,6 +622,10 @@ def run_world(w: World, script: int, nbars: int, keep=False):
 
         def after_bar(self_, snapshot):
             self_._hook("ab", snapshot)
+
+        def finalize(self_):
+            if self_.account_status:
+                slot(len(self_.account_status) - 1)["account_live"] = canon(self_.account_status[-1])
 
         def notify(self_, action):
             bar = len(w.act.account_status) - 1   # the bar whose row was appended just before the notifications
@@ -612,6 +663,8 @@ def run_world(w: World, script: int, nbars: int, keep=False):
             c = dict(c)
             c["actions"] = [extra, c["actions"]]
         obs.append({k: digest(c[k]) for k in COMPONENTS})
+    if group > 1:       # kind "mix": one history bar = a block of `group` actuator bars
+        obs = [{k: digest([o[k] for o in obs[j:j + group]]) for k in COMPONENTS} for j in range(0, nbars, group)]
     out = {"obs": obs, "err": err, "outcomes": list(w.outcomes), "bars_done": len(rows)}
     if keep:
         out["canon"] = [per.get(i) for i in range(nbars)]
@@ -658,7 +711,8 @@ def run_history(kind, F, script, hist, tmp, rerun=True, keep=False):
     live = live_frames(w)
     din = digest_frames(fr)
     lin = digest_frames(live)
-    r1 = run_world(w, script, nb, keep)
+    grp = MIX_BLOCK if kind == "mix" else 1
+    r1 = run_world(w, script, nb * grp, keep, grp)
     dout = digest_frames(fr)
     lout = digest_frames(live)               # the objects that were live before the run (resampling replaces, must not mutate)
     live_same = all(live_frames(w)[k] is v for k, v in live.items())
@@ -670,7 +724,7 @@ def run_history(kind, F, script, hist, tmp, rerun=True, keep=False):
         res["canon"] = r1["canon"]
     if rerun:
         w2 = actuator(kind, F, fr)
-        r2 = run_world(w2, script, nb, keep)
+        r2 = run_world(w2, script, nb * grp, keep, grp)
         res["obs2"], res["err2"] = r2["obs"], r2["err"]
         res["dout2"] = digest_frames(fr)
         if keep:
